@@ -151,4 +151,37 @@ def specNet (T : Topo) (allEps : List Ep) (orig : Ep) (oz : Zone) (n : Net) : Op
   else if n.processed.length + n.discarded.length + n.inflight.length > allEps.length then some .too_many_deliveries
   else none
 
+/-- "the zone masters are connected to their zone peers and to one endpoint of each directly related zone": for every
+    zone the member with the smallest name reaches every other member and, for every parent or child zone that has
+    members, at least one of them -/
+def mastersConnectedB (T : Topo) (allEps : List Ep) (zones : List Zone) : Bool :=
+  zones.all fun z =>
+    match minEp (allEps.filter (fun e => T.zoneOf e == z)) with
+    | none => true
+    | some m =>
+      (allEps.filter (fun e => T.zoneOf e == z)).all (fun p => p == m || T.conn m p) &&
+      zones.all (fun z' => !(T.parent z' == some z || T.parent z == some z') ||
+        (allEps.filter (fun e => T.zoneOf e == z')).isEmpty || (allEps.filter (fun e => T.zoneOf e == z')).any (fun e' => T.conn m e'))
+
+/-- "every endpoint of every entitled zone processes the event" -/
+def completeB (T : Topo) (allEps : List Ep) (orig : Ep) (oz : Zone) (n : Net) : Bool :=
+  (allEps.filter (fun e => netEntitledB T (T.zoneOf orig) oz (T.zoneOf e))).all (fun e => n.processed.contains e)
+
+/-- the completeness sentence on a quiescent state: under its connectivity hypothesis, and when the originator's own
+    zone is entitled, everybody entitled has processed the event -/
+def specComplete (T : Topo) (allEps : List Ep) (zones : List Zone) (orig : Ep) (oz : Zone) (n : Net) : Bool :=
+  !(n.inflight.isEmpty && mastersConnectedB T allEps zones && netEntitledB T (T.zoneOf orig) oz (T.zoneOf orig))
+  || completeB T allEps orig oz n
+
+/-- Prop-level entitlement of a zone in the cluster-wide statements: for an object of an ordinary zone `oz` the zone
+    itself and its ancestors (as `Zone::IsChildOf` walks them); for an object of a global zone the originator's zone
+    and everything below it (each hop passes the event to its own zone and its direct children). -/
+def NetEntitled (T : Topo) (origZone oz z : Zone) : Prop :=
+  if T.isGlobal oz = true then Anc T z origZone else isChildOf T oz z = true
+
+/-- what the cluster-wide statements need of the configuration: global zones detached, and on every node an
+    endpoint listed in a zone has that zone cached -/
+structure NetWF (T : Topo) : Prop extends Detached T where
+  zone_of_mem : ∀ s z e, e ∈ T.eps s z → T.zoneOf e = z
+
 end Icinga.C11
